@@ -8,9 +8,10 @@
 
    PREMISE [secp256k1_group] (Proofs/EcdsaSecp.v) of the "verifies" / ECDH statements: on valid points (on the curve,
    coordinates in [0,p)) padd / pneg / smul of Prim/Secp256k1.v are closed and form an abelian group with Z-action
-   smul; n is prime; lift_x inverts (xcoord, yodd); yodd (pneg P) = negb (yodd P); G has order exactly n.
+   smul; lift_x inverts (xcoord, yodd); yodd (pneg P) = negb (yodd P); G has order exactly n.
    It is the trusted statement that secp256k1 is a group of prime order — not proved here.  What IS proved for the
-   concrete formulas: n*G = O (by evaluation), O + P = P, x(-P) = x(P), modular inverses by extended Euclid.
+   concrete formulas: n is prime and p is prime (Proofs/SecpPrimes.v: Pratt certificates checked inside Coq,
+   Fermat's little theorem in Proofs/Primality.v), n*G = O (by evaluation), O + P = P, x(-P) = x(P), modular inverses by extended Euclid.
    Proofs/EcdsaAbstractInst.v shows that the abstract hypotheses are jointly satisfiable (toy group).
 
    NOT a theorem (`partial`): "fails to verify for a different message, hash choice or key" — it needs collision
